@@ -94,3 +94,54 @@ def correlation(xs, ys):
     ky = (n * float(syy) + ay * ay) / fvy
     err = K * ((n * axy + ax * ay) / math.sqrt(fvx) / math.sqrt(fvy) + abs(r) * (kx + ky))
     return r, err
+
+
+# ---------------------------------------------------------------------------------------------
+# The documented algorithm in binary64 (Meeus ch. 4 closed forms with the absolute guard
+# |d| < TOL), written out independently of pymeeus.  Used ONLY to delimit the known finding
+# "degenerate-inexact-not-refused": on data whose exact determinant is 0, a result other than
+# ZeroDivisionError is excused exactly when this float evaluation, through rounding of the sums,
+# does not refuse either and gives the same result; anything else gets a different key.
+TOL = 1e-10
+
+
+def float_sums(xs, ys):
+    n = len(xs)
+    P = math.fsum(xs); T = math.fsum(ys)
+    Qs = Rs = Ss = Us = Vs = Ws = 0.0
+    for i in range(n):
+        x2 = xs[i] * xs[i]; xy = xs[i] * ys[i]
+        Qs += x2; Rs += x2 * xs[i]; Ss += x2 * x2; Us += xy; Vs += xy * xs[i]; Ws += ys[i] * ys[i]
+    return n, P, Qs, Rs, Ss, T, Us, Vs, Ws
+
+
+def float_linear(xs, ys):
+    n, p, q, r, s, t, u, v, w = float_sums(xs, ys)
+    d = n * q - p * p
+    if abs(d) < TOL: return ("exc", "ZeroDivisionError")
+    return ("ok", ((n * u - p * t) / d, (t * q - p * u) / d))
+
+
+def float_quadratic(xs, ys):
+    n, p, q, r, s, t, u, v, w = float_sums(xs, ys)
+    q2 = q * q
+    d = n * q * s + 2.0 * p * q * r - q2 * q - p * p * s - n * r * r
+    if abs(d) < TOL: return ("exc", "ZeroDivisionError")
+    a = (n * q * v + p * r * t + p * q * u - q2 * t - p * p * v - n * r * u) / d
+    b = (n * s * u + p * q * v + q * r * t - q2 * u - p * s * t - n * r * v) / d
+    c = (q * s * t + q * r * u + p * r * v - q2 * v - p * s * u - r * r * t) / d
+    return ("ok", (a, b, c))
+
+
+def float_correlation(xs, ys):
+    n, p, q, r, s, t, u, v, w = float_sums(xs, ys)
+    vx = n * q - p * p; vy = n * w - t * t
+    if vx < 0 or vy < 0: return ("exc", "ValueError")
+    den = math.sqrt(vx) * math.sqrt(vy)
+    if den == 0: return ("exc", "ZeroDivisionError")
+    return ("ok", (n * u - p * t) / den)
+
+
+def exact_linear_det(xs):
+    X = [Q(x) for x in xs]
+    return len(xs) * sum(x * x for x in X) - sum(X) ** 2
